@@ -55,7 +55,12 @@ def main(run):
         meta[rid] = {"rule": "control", "label": "unedited", "schema_path": sp, "schema_text": stext if fmt == "sdl" else None, "schema_format": fmt, "schema_obj": schema}
         for ei, (rule, label, text, m) in enumerate(edits(schema, doc, rng, max_per_rule=run.size(40, 60))):
             eid = "p%d.e%d" % (i, ei)
-            reqs.append({"id": eid, "schema_path": sp, "query_text": text, "options": {"mode": "cli"}, "want": []})
+            # every fifth edit is generated the way the CLI's fallback does it: a selected operation name that matches nothing, so
+            # that ALL operations are generated - the invalid one among them must still be refused
+            o_edit = {"mode": "cli", "operation_name": "ZzNoSuchOperation"} if ei % 5 == 3 else {"mode": "cli"}
+            if ei % 5 == 3:
+                run.count("edits-under-a-non-matching-selected-operation")
+            reqs.append({"id": eid, "schema_path": sp, "query_text": text, "options": o_edit, "want": []})
             m.update({"rule": rule, "label": label, "schema_path": sp, "schema_text": stext if fmt == "sdl" else None, "schema_format": fmt})
             meta[eid] = m
     resps = run_gendrv_parallel(reqs)
